@@ -46,7 +46,7 @@ inline RawGram genGrammar(Choices &c, const GramOpts &o) {
     bool firstOfNt = r < nN;
     for (int k = 0; k < len; k++) {
       int kind = c.upto(9);
-      if (useErr && kind == 9) ru.rhs.push_back("error");
+      if (useErr && c.chance(12)) ru.rhs.push_back("error");
       else if (kind < 4 || (firstOfNt && lhs == nN - 1)) ru.rhs.push_back(tname(c.upto(nT - 1)));
       else if (firstOfNt) ru.rhs.push_back(nname(c.range(std::min(lhs + 1, nN - 1), nN - 1))); // keeps most nonterminals productive
       else ru.rhs.push_back(nname(c.upto(nN - 1)));
@@ -57,6 +57,11 @@ inline RawGram genGrammar(Choices &c, const GramOpts &o) {
       else { ru.rhs = {ru.lhs, ru.lhs}; if (c.flip()) ru.rhs.insert(ru.rhs.begin() + 1, tname(c.upto(nT - 1))); }
     }
     g.rules.push_back(ru);
+  }
+  if (useErr) { // at least one rule really uses `error'
+    bool has = false;
+    for (auto &r : g.rules) for (auto &x : r.rhs) if (x == "error") has = true;
+    if (!has) { RawRule &host = g.rules[c.upto((int)g.rules.size() - 1)]; host.rhs.insert(host.rhs.begin() + c.upto((int)host.rhs.size()), "error"); }
   }
   // pass 2: usually make every nonterminal reachable from the start symbol
   if (c.chance(80)) {
